@@ -121,6 +121,8 @@ type vRouter struct {
 	ups map[string]*scriptUp
 	tmp string
 	own *env.Own
+
+	closedOnce bool
 }
 
 // vNewRouter builds the real router from cfg via run(); every upstream named in tags is created by the
@@ -145,7 +147,16 @@ func vNewRouter(cfg *Config, tags ...string) (*vRouter, error) {
 	return v, nil
 }
 
-func (v *vRouter) Close() { v.r.close(nil) }
+// Close shuts the router down and lets background goroutines that poll once a second (otter's
+// cleanup loop) observe it, so that the bubble can end.
+func (v *vRouter) Close() {
+	v.r.close(nil)
+	if v.r.cache != nil && v.r.cache.memory != nil && !v.closedOnce {
+		v.closedOnce = true
+		time.Sleep(1500 * time.Millisecond)
+		synctest.Wait()
+	}
+}
 
 // vTmpFile writes a file under a per-process temp dir (domain lists, ip markers).
 var vTmpDir string
